@@ -150,7 +150,7 @@ def check_net(ctx, root, ncols, rs, n_pat, n_val, tag):
 
 
 def run(ctx):
-    n_nets = 160 if ctx.tier == 'quick' else 4000
+    n_nets = 400 if ctx.tier == 'quick' else 6000
     n_pat = 32 if ctx.tier == 'quick' else 64
     for k in range(n_nets):
         root, ncols, rs = gen_case(ctx, k)
